@@ -729,6 +729,18 @@ fn m2_drive(_s: &Seed, data: &[u8], p: &mut Probe) {
     p.call("extract_embedded_skin_bytes", || wow_m2::embedded_skin::extract_embedded_skin_bytes(data, 0));
     p.call("extract_embedded_skin_bytes", || wow_m2::embedded_skin::extract_embedded_skin_bytes(data, 1));
     p.call("M2Model::parse", || wow_m2::M2Model::parse(&mut Cursor::new(data)));
+    // parse_embedded_skin needs nothing of the model but its version and the view table locator: a caller that read only the
+    // header (or built the model object itself) reaches it without the full parse having accepted the file
+    if data.len() >= 0x34 {
+        let rd = |o: usize| u32::from_le_bytes([data[o], data[o + 1], data[o + 2], data[o + 3]]);
+        let mut hm = M2Model::default();
+        hm.header.version = rd(4);
+        hm.header.views = M2Array::new(rd(0x2C), rd(0x30));
+        if hm.header.version <= 263 {
+            p.call("M2Model::parse_embedded_skin", || hm.parse_embedded_skin(data, 0));
+            p.call("M2Model::parse_all_embedded_skins", || hm.parse_all_embedded_skins(data));
+        }
+    }
     // companion files of a model (.phys / .skel / .bone): chunk streams of their own, offered the same bytes
     p.call("PhysicsData::parse", || wow_m2::chunks::file_references::PhysicsData::parse(data));
     p.call("SkeletonData::parse", || wow_m2::chunks::file_references::SkeletonData::parse(data));
